@@ -25,7 +25,7 @@ structure Inv (s : S) : Prop where
 
 /-- the steps a protocol-following writer may issue in state `s` -/
 def Legal (s : S) : Step → Prop
-  | .probeCreate _ => True
+  | .probeCreate oid => s.objs.lookup oid = none  -- a single writer only probes names its existence check found absent
   | .probeUnlink oid => oid ∉ s.rows      -- only names nothing vouches for are probed
   | .tmpCreate _ => True
   | .append t c => ∀ b, s.tmps.lookup t = some b → (b ++ c) <+: (intent t).2
@@ -40,47 +40,35 @@ theorem exec_preserves (s : S) (st : Step) (hi : Inv H intent s) (hl : Legal H i
     Inv H intent (exec s st) := by
   cases st with
   | probeCreate oid =>
-    simp only [exec]
-    split
-    · exact hi
-    · rename_i hc
-      have hnone : s.objs.lookup oid = none := by
-        cases h : s.objs.lookup oid with
-        | none => rfl
-        | some o => simp [AList.contains, h] at hc
-      refine ⟨?_, ?_, hi.tmps⟩
-      · intro k o ho hp
-        rw [AList.lookup_set] at ho
-        split at ho
-        · injection ho with ho; subst ho; simp at hp
-        · exact hi.prot k o ho hp
-      · intro k hk
-        obtain ⟨o, ho, hv⟩ := hi.rows k hk
-        refine ⟨o, ?_, hv⟩
-        rw [AList.lookup_set]
-        have : ¬ oid = k := by intro e; subst e; rw [hnone] at ho; cases ho
-        simp [this, ho]
+    have hnone : s.objs.lookup oid = none := hl
+    simp only [exec, hnone]
+    refine ⟨?_, ?_, hi.tmps⟩
+    · intro k o ho hp
+      rw [AList.lookup_set] at ho
+      split at ho
+      · injection ho with ho; subst ho; simp [protOf] at hp
+      · exact hi.prot k o ho hp
+    · intro k hk
+      obtain ⟨o, ho, hv⟩ := hi.rows k hk
+      refine ⟨o, ?_, hv⟩
+      rw [AList.lookup_set]
+      have : ¬ oid = k := by intro e; subst e; rw [hnone] at ho; cases ho
+      simp [this, ho]
   | probeUnlink oid =>
     simp only [exec]
-    split
-    · rename_i o ho
-      split
-      · rename_i hcond
-        refine ⟨?_, ?_, hi.tmps⟩
-        · intro k o' ho' hp
-          rw [AList.lookup_erase] at ho'
-          split at ho'
-          · cases ho'
-          · exact hi.prot k o' ho' hp
-        · intro k hk
-          obtain ⟨o', ho', hv⟩ := hi.rows k hk
-          refine ⟨o', ?_, hv⟩
-          rw [AList.lookup_erase]
-          have : ¬ oid = k := by
-            intro e; subst e; exact hl hk
-          simp [this, ho']
-      · exact hi
-    · exact hi
+    refine ⟨?_, ?_, hi.tmps⟩
+    · intro k o' ho' hp
+      rw [AList.lookup_erase] at ho'
+      split at ho'
+      · cases ho'
+      · exact hi.prot k o' ho' hp
+    · intro k hk
+      obtain ⟨o', ho', hv⟩ := hi.rows k hk
+      refine ⟨o', ?_, hv⟩
+      rw [AList.lookup_erase]
+      have : ¬ oid = k := by
+        intro e; subst e; exact hl hk
+      simp [this, ho']
   | tmpCreate t =>
     simp only [exec]
     refine ⟨hi.prot, hi.rows, ?_⟩
@@ -210,8 +198,8 @@ def tmpOf : Step → Option Tmp
 theorem exec_frame_tmp (s : S) (st : Step) (t : Tmp) (h : tmpOf st ≠ some t) :
     (exec s st).tmps.lookup t = s.tmps.lookup t := by
   cases st with
-  | probeCreate oid => simp only [exec]; split <;> rfl
-  | probeUnlink oid => simp only [exec]; split <;> (try split) <;> rfl
+  | probeCreate oid => rfl
+  | probeUnlink oid => rfl
   | tmpCreate t' =>
     simp only [exec, AList.lookup_set]
     have : ¬ t' = t := fun e => h (by simp [tmpOf, e])
